@@ -88,7 +88,7 @@ Call(ev) ==
       panicked == ev.panic # ""
       inputsOK == Reads(ev) \cap bad = {}     \* operands whose observed set was not a union of atoms cannot be judged
       vPanic == IF panicked THEN {V(ev, "panic", 0, ev.panic)} ELSE {}
-      vBad == {V(ev, "not-a-union-of-atoms", ev.bad[i].s, ev.bad[i].m) : i \in DOMAIN ev.bad}
+      vBad == {V(ev, "not-a-union-of-atoms", ev.bad[i].s, ev.bad[i].m) : i \in {j \in DOMAIN ev.bad : ev.bad[j].s \notin bad}}
       \* content: every slot not known to be bad must hold what the specification says
       wrong == {s \in Slots : s \notin nowbad /\ s \notin bad /\ (s = Target(ev) => inputsOK) /\ exp[s] # obs[s]}
       vContent == IF panicked THEN {} ELSE
@@ -101,6 +101,7 @@ Call(ev) ==
       vAux == IF ev.aux THEN {} ELSE {V(ev, "aux", 0, "")}
       vArg == IF ev.argok THEN {} ELSE {V(ev, "argument-slice-modified", 0, "")}
       vBuf == IF ev.bufch = <<>> THEN {} ELSE {V(ev, "caller-buffer-written", 0, ev.bufch)}
+      vGor == IF "gor" \in DOMAIN ev /\ ev.gor > 0 THEN {V(ev, "goroutine-leak", 0, ev.gor)} ELSE {}
       vAlias == {V(ev, "result-aliases-input", ev.alias[i][1], ev.alias[i][2]) : i \in DOMAIN ev.alias}
       vProbe == {V(ev, IF ev.probe[i].b = 0 THEN "caller-buffer-written" ELSE "sharing-witnessed", ev.probe[i].a, ev.probe[i].b) :
                    i \in {j \in DOMAIN ev.probe : ev.probe[j].w}}
@@ -112,7 +113,7 @@ Call(ev) ==
      /\ reps' = rs
      /\ bad' = (bad \ {ev.post[i].s : i \in DOMAIN ev.post}) \cup nowbad
      /\ U' = U
-     /\ Record(vPanic \cup vBad \cup vContent \cup vRet \cup vList \cup vAux \cup vArg \cup vBuf \cup vRep \cup vShare \cup vAlias \cup vProbe)
+     /\ Record(vPanic \cup vBad \cup vContent \cup vRet \cup vList \cup vAux \cup vArg \cup vBuf \cup vRep \cup vShare \cup vAlias \cup vProbe \cup vGor)
 
 Next ==
   /\ l <= Len(Trace)
